@@ -1,6 +1,7 @@
 """C07 — write() never changes an existing file unless overwrite=True."""
 import itertools
 import json
+import os
 import subprocess
 import sys
 from pathlib import Path
@@ -520,6 +521,9 @@ def main(ctx):
                            if f.get('property') == 'C07' and f.get('status') == 'open'
                            and 'format' in f.get('match', {})})
     try:
+        if os.environ.get('C07_FORCE_BASELINE'):
+            # test hook: exercise the T -> H fallback on a tree the translator can read
+            raise c07_effects.TranslateError('forced by C07_FORCE_BASELINE')
         cfg, consumed = c07_effects.translate(str(lib.REPO))
         ctx.sources = consumed
     except (c07_effects.TranslateError, SyntaxError, RecursionError) as e:
